@@ -5,7 +5,7 @@
    of the total and / or the quota, the higher or lower of the two) IS [ol_threshold].  What happens after the comprehension
    (cut to n seats, list precedence, the fill-up loop) and the constructor's quota_fraction wrapper are tied by correspondence. *)
 From Coq Require Import ZArith QArith List Bool Lia Lqa.
-From VL Require Import Prelude.PyDict Prelude.PyNum Prelude.PyList Model.GetNBest Model.QuotaDistributor Model.Threshold Proofs.QBool_tac.
+From VL Require Import Prelude.PyDict Prelude.PyNum Prelude.PyList Model.GetNBest Model.QuotaDistributor Model.Threshold Proofs.QBool_tac Proofs.Threshold_proofs.
 From VL Require Gen.Openlist.
 Import ListNotations.
 Close Scope Q_scope.
@@ -46,6 +46,18 @@ Proof.
     q_atoms; cbn [oq_eq]; solve [ reflexivity | lra ].
 Qed.
 Print Assumptions tie_ol_threshold.
+
+(* who jumps (the membership clause of C16_openlist_structure), restated of the generated comprehension *)
+Corollary gen_C16_jumping : forall ae thr votes c,
+  In c (Gen.Openlist.ThresholdOpenList_jumping ae thr votes) <->
+  exists v, In (c, v) votes /\ ((thr < v)%Q \/ (ae = true /\ (v == thr)%Q)).
+Proof.
+  intros ae thr votes c.
+  pose proof (tie_ol_jumping {| ol_jump := None; ol_quota := None; ol_take_higher := false; ol_accept_equal := ae; ol_list_precedence := false |} votes thr) as H.
+  cbn [ol_accept_equal] in H. rewrite H.
+  exact (absolute_spec thr ae votes c).
+Qed.
+Print Assumptions gen_C16_jumping.
 
 Theorem GenTie_Openlist :
   (forall ae thr v, Gen.Openlist.ThresholdOpenList_jump_test ae thr v = passes ae v thr) /\
